@@ -344,7 +344,7 @@ Proof.
   destruct (fold_set_val_fields kw i) as (Fd & Fp & Fk & Fi & Fe & Fo & Fc). cbn zeta in Fd, Fp, Fk, Fi, Fe, Fo, Fc.
   unfold bind at 1. destruct (is_lazy (i_k i) && existsb _ kvs); [split; [exact H|apply ext_refl]|]. unfold ret at 1.
   unfold bind at 1. destruct (validate_all_run kw s) as [Ev|Ev]; rewrite Ev; [|split; [exact H|apply ext_refl]].
-  unfold bind at 1. destruct (existsb _ kvs); [split; [exact H|apply ext_refl]|]. unfold ret at 1.
+  unfold bind at 1. destruct (run_extras (as_dict kvs)); [split; [exact H|apply ext_refl]|]. unfold ret at 1.
   destruct (is_lazy (i_k i)) eqn:Hlz.
   - unfold upd_inst, modify. cbn [fst snd]. fold i. split; [|apply ext_upd; cbn; assumption].
     apply Inv_upd; try assumption; cbn; try assumption.
